@@ -115,6 +115,25 @@ Theorem C01_history_leftover_checked_exec : forall cfg ops n,
 Proof. exact C01_history_leftover_checked_exec. Qed.
 Print Assumptions C01_history_leftover_checked_exec.
 
+(* Verifying transfers (verify=True), from ANY source - rotten on disk (ORot, an external event that
+   is not a dvc-data operation and is excluded from WfOp), misnamed, of another algorithm: the
+   destination never retains an object whose digest is not its name.  StemP is the name rule that
+   verification itself enforces (HashFileDB.check compares digest and id up to the first "."):
+     StemP H st j [] := every object (k, o) of store j has  stem (H alg (o_bytes o)) = stem k.
+   PARTIAL with respect to the wish "Inv of the destination is preserved from a rotten source":
+   the full named_ok also asks a ".dir" object to be a canonical listing, which verification does
+   not look at (a non-canonical blob whose digest happens to be the id passes); what is missing is
+   exactly that clause.  For reachable states (InvE) the premise holds (C01_verifying_transfer_exec). *)
+Theorem C01_verifying_transfer_partial : forall H st src dst ids sh,
+  StemP H st dst [] -> StemP H (step H st (OTransfer src dst ids sh true)) dst [].
+Proof. exact C01_verifying_transfer_partial. Qed.
+Print Assumptions C01_verifying_transfer_partial.
+
+Theorem C01_verifying_transfer_exec : forall E st src dst ids sh,
+  InvE H_exec E st -> StemP H_exec (step H_exec st (OTransfer src dst ids sh true)) dst [].
+Proof. exact C01_verifying_transfer_exec. Qed.
+Print Assumptions C01_verifying_transfer_exec.
+
 (* the restriction WfOp cannot simply be dropped: without it the (faithful) model leaves the
    invariant - witness: staging a directory into a sha256 store, the legacy external-output path,
    which the real code mirrors byte for byte (harness, malformed stream).  Not a finding: it is
